@@ -730,7 +730,7 @@ class Engine:
                 or self.module_const(node.func.value.id) is not None
             if recv_known:
                 recv = self._ev(node.func.value, st)
-                if is_str(recv) or isinstance(recv, (Choice, Tup)):
+                if is_str(recv) or isinstance(recv, (Choice, Tup)) or (isinstance(recv, Opaque) and recv.name == "field"):
                     r = self.str_method(recv, node.func.attr, args, kw, st)
                     if r is not NotImplemented:
                         return r
